@@ -92,7 +92,7 @@ for _p in ["C01", "C04", "C08", "C09", "C10", "C12", "C15"]:
         "run": ["Run/EnumRun.v"],
         "tables": ["T1", "T3", "T4", "T5"],
         "n_quick": 300,
-        "n_thorough": 3000,
+        "n_thorough": 12000,
         "trusted_base": TB_ENUM,
         "assumptions": [],
     }
